@@ -113,16 +113,19 @@ Variables (Tn : nat) (tiny : T).
 Definition vnorm (x : nat -> T) : nat -> T :=
   let n := omax P (osqrt P (bsum P Tn (fun t => omul P (x t) (x t)))) tiny in
   fun t => odiv P (x t) n.
-(* einsum('K...T,k...T->...kK', mask.conj(), reference): entry [k_ref, k_est] *)
-Definition score_multiply (mask ref : nat -> nat -> T) (k ke : nat) : T :=
-  bsum P Tn (fun t => omul P (mask ke t) (ref k t)).
-Definition score_cos (mask ref : nat -> nat -> T) : nat -> nat -> T :=
-  score_multiply (fun k => vnorm (mask k)) (fun k => vnorm (ref k)).
-(* -sqrt(sum(|mask[K] - reference[k]|**2)) *)
-Definition score_euclid (mask ref : nat -> nat -> T) (k ke : nat) : T :=
-  oopp P (osqrt P (bsum P Tn (fun t => let d := osub P (mask ke t) (ref k t) in omul P d d))).
-Definition score_fn (m : metric) : (nat -> nat -> T) -> (nat -> nat -> T) -> nat -> nat -> T :=
-  match m with Cos => score_cos | Euclid => score_euclid | Multiply => score_multiply end.
+(* the score of one estimate row x against one reference row r:
+   multiply:  einsum('K...T,k...T->...kK', mask.conj(), reference)[k, K] = sum_t mask[K,t] reference[k,t]
+   cos:       multiply on the normalised rows
+   euclidean: -sqrt(sum_t |mask[K,t] - reference[k,t]|**2) *)
+Definition pair_multiply (x r : nat -> T) : T := bsum P Tn (fun t => omul P (x t) (r t)).
+Definition pair_cos (x r : nat -> T) : T := pair_multiply (vnorm x) (vnorm r).
+Definition pair_euclid (x r : nat -> T) : T :=
+  oopp P (osqrt P (bsum P Tn (fun t => let d := osub P (x t) (r t) in omul P d d))).
+Definition pair_score (m : metric) : (nat -> T) -> (nat -> T) -> T :=
+  match m with Cos => pair_cos | Euclid => pair_euclid | Multiply => pair_multiply end.
+(* score matrix entry [k_ref, k_est] *)
+Definition score_fn (m : metric) (mask ref : nat -> nat -> T) (k ke : nat) : T :=
+  pair_score m (mask ke) (ref k).
 End Score.
 
 (* ------------------------------------------------------------------------------------------ *)
